@@ -40,17 +40,23 @@ def make_gmat(X, pl, phased, rng):
     return DenseGenotypeMatrix(X.astype("int8"), taxa=taxa, taxa_grp=grp, ploidy=pl)
 
 
-def one(cid, est, rng, big):
+def one(cid, est, rng, big, wide=False):
     Cls, name = cls_of(est)
     pl = 1 if (est == "molecular" and rng.random() < 0.3) else 2
     if big:
         n = rng.randrange(4, 31); m = rng.randrange(2, 11)
     else:
         n = rng.randrange(1, 4); m = rng.randrange(1, 4)
+    if wide:                       # marker panels wider than a signed byte can count (sums of products exceed 127)
+        n = rng.randrange(2, 4); m = rng.choice([130, 200, 300])
     mode = rng.choice(["estimated", "array", "scalar"]) if est != "molecular" else "none"
     if mode == "estimated" and ((est == "yang" and n > 3) or n > 12):
         mode = "array"
+    if wide and mode == "estimated":
+        mode = "scalar"
     X = np.array([[rng.randrange(pl + 1) for _ in range(m)] for _ in range(n)])
+    if wide:
+        X = np.array([[rng.choice([0, pl, pl, pl, 1 if pl == 2 else 0]) for _ in range(m)] for _ in range(n)])
     c = {"id": cid, "est": est, "cls": name, "pl": pl, "mode": mode, "w": [1] * m, "c": [1] * m, "D": 2, "err": None}
     kw = {}
     if est != "molecular":
@@ -151,6 +157,8 @@ def run(ctx):
         allc.append(one(len(allc) + 1, ests[k % 4], rng, big=False))
     for k in range(600 if thorough else 240):
         allc.append(one(len(allc) + 1, ests[k % 4], rng, big=True))
+    for k in range(24 if thorough else 8):
+        allc.append(one(len(allc) + 1, ests[k % 4], rng, big=True, wide=True))
     verd = cases.validate(ctx, "Coancestry_Trace", "Coancestry_Trace.cfg",
                           [{k: v for k, v in c.items() if k not in ("numeric", "mode", "cls")} for c in allc],
                           "Coancestry_Trace", chunk=25, procs=14)
